@@ -90,6 +90,15 @@ def build_alphabet(m, ents, rng=None, small=False):
         add("path", X.meth(X.call("Sid", path=p, config=c0), "path"))
         add("path", X.meth(X.call("Sid", path=p, config=c0), "path", cfgs[0]))
     add("path", X.meth(X.sid(f), "path"))
+    # the same call on equal Sids that were built in different ways (from the string, the uri, the fields, a path
+    # under each configuration): one memo entry serves them all
+    for s0 in (f, d):
+        t0 = m.natural_type(s0)
+        es = [X.meth(X.call("Sid", path=paths[(s0, c)], config=c), "path") for c in cfgs if (s0, c) in paths]
+        es += [X.meth(X.sid(s0), "path"), X.meth(X.sid(t0 + ":" + s0), "path"),
+               X.meth(X.call("Sid", fields=X.lit(m.fields(t0, s0))), "path")]
+        G.append({"tag": "path", "es": es})
+        G.append({"tag": "path", "es": list(reversed(es))})
     for s in (f, d, "foo/bar", star2, segs[0]):
         S = X.sid(s)
         add("path", X.meth(S, "path"))
@@ -235,7 +244,10 @@ class HistoryProfile(StoreProfile):
             es = list(g["es"])
             rng.shuffle(es)
             return {"op": "group", "tag": g["tag"], "es": es[: rng.randint(2, len(es))]}
-        a = rng.choice(A)
+        # stratified by kind of call first (the alphabet is dominated by find / unfold variants otherwise)
+        tags = sorted({a["tag"] for a in A})
+        tag = rng.choice(tags)
+        a = rng.choice([x for x in A if x["tag"] == tag])
         return {"op": "call", "tag": a["tag"], "e": a["e"]}
 
     # ------------------------------------------------------------------ execution
